@@ -51,7 +51,6 @@ fn feed(chunks: &[&[u8]], ends: &[usize], want: &[Delivered]) -> Result<(), Fail
         buf.extend_from_slice(ch);
         fed += ch.len();
         loop {
-            let before = buf.clone();
             let r = match guard(|| ldap3::verif::verif_decode(&mut buf)) {
                 Ok(r) => r,
                 Err(p) => fail!(panic_sig(&p), "decoder panicked on a well-formed stream: {}", p),
@@ -70,10 +69,7 @@ fn feed(chunks: &[&[u8]], ends: &[usize], want: &[Delivered]) -> Result<(), Fail
                     // bytes that belong to the next message must still be in the buffer
                     ensure!(buf.len() == fed - ends[got - 1], "c06:over-consumption", "after message {} the buffer holds {} bytes, expected {}", got - 1, buf.len(), fed - ends[got - 1]);
                 }
-                Ok(None) => {
-                    let _ = &before;
-                    break;
-                }
+                Ok(None) => break,
                 Err(e) => fail!("c06:error-on-valid-stream", "decoder failed on a well-formed stream after {} bytes: {}", fed, e),
             }
         }
@@ -185,22 +181,80 @@ fn feed_prefix(prefix: &[u8], ends: &[usize], want: &[Delivered]) -> Result<(), 
     let mut buf = BytesMut::from(prefix);
     let mut got = 0;
     loop {
-        let before = buf.clone();
         match guard(|| ldap3::verif::verif_decode(&mut buf)) {
             Err(p) => fail!(panic_sig(&p), "decoder panicked on a prefix of a well-formed stream: {}", p),
             Ok(Ok(Some(_))) => {
                 ensure!(got < want.len(), "c06:early-delivery", "a message surfaced from a {}-byte prefix before its last byte (complete messages: {})", prefix.len(), want.len());
                 got += 1;
             }
-            Ok(Ok(None)) => {
-                let _ = &before;
-                break;
-            }
+            Ok(Ok(None)) => break,
             Ok(Err(e)) => fail!("c06:error-on-valid-stream", "decoder failed on a prefix of a well-formed stream: {}", e),
         }
     }
     ensure!(got == want.len(), "c06:late-delivery", "{} complete messages in the prefix, {} delivered", want.len(), got);
     let _ = ends;
+    Ok(())
+}
+
+
+// ---------------------------------------------------------------- huge lane: a message of 1-3 MiB inside a stream
+
+#[derive(Clone, Debug, Serialize, Deserialize)]
+pub struct HugeCase {
+    pub size: u32,
+    pub lead: Vec<RespMsg>,
+    pub trail: Vec<RespMsg>,
+    /// where (as a fraction of the huge message) the first read ends; 0 = its first byte starts a read
+    pub first_cut: u16,
+    /// how many bytes of what follows the huge message arrive in the same read as its last byte
+    pub tail_take: u16,
+    pub forms: Vec<u8>,
+}
+
+fn huge_strat(_: &Ctx) -> BoxedStrategy<HugeCase> {
+    let size = prop_oneof![3 => 1_048_000u32..1_100_000, 2 => 1_100_000u32..3_200_000, 1 => proptest::sample::select(&[1_048_575u32, 1_048_576, 1_048_577, 2_097_152, 16_777_216, 16_777_217][..])];
+    (size, vec(respgen::any_msg(false), 0..3), vec(respgen::any_msg(false), 1..4), any::<u16>(), prop_oneof![1 => Just(0u16), 1 => Just(u16::MAX), 3 => any::<u16>()], crate::gens::forms())
+        .prop_map(|(size, lead, trail, first_cut, tail_take, forms)| HugeCase { size, lead, trail, first_cut, tail_take, forms })
+        .boxed()
+}
+
+pub fn check_huge(c: &HugeCase, obs: &mut Obs) -> Result<(), Fail> {
+    let huge = RespMsg::new(77, Resp::Entry(Entry { dn: "cn=huge".into(), attrs: vec![("blob".into(), vec![vec![0x5a; c.size as usize]])] }));
+    let mut msgs: Vec<&RespMsg> = c.lead.iter().collect();
+    msgs.push(&huge);
+    msgs.extend(c.trail.iter());
+    let mut stream = Vec::new();
+    let mut ends = Vec::new();
+    let (mut hs, mut he) = (0, 0);
+    for (i, m) in msgs.iter().enumerate() {
+        let b = if i == c.lead.len() { m.encode() } else { m.encode_forms(&c.forms) };
+        if i == c.lead.len() {
+            hs = stream.len();
+            he = hs + b.len();
+        }
+        stream.extend_from_slice(&b);
+        ends.push(stream.len());
+    }
+    let want: Vec<Delivered> = msgs.iter().map(|m| model_of(m)).collect();
+    let n = stream.len();
+    let c1 = hs + pick_idx(c.first_cut, he - hs);
+    let c2 = he + pick_idx(c.tail_take, n - he + 1);
+    let mut chunks: Vec<&[u8]> = Vec::new();
+    if c1 > 0 {
+        chunks.push(&stream[..c1]);
+    }
+    chunks.push(&stream[c1..c2]);
+    if c2 < n {
+        chunks.push(&stream[c2..]);
+    }
+    feed(&chunks, &ends, &want)?;
+    obs.label(if c2 == he { "read-ends-with-huge-message" } else if ends.contains(&c2) { "huge+whole-followers-in-one-read" } else { "huge+partial-follower-in-one-read" });
+    if c.size > 16_777_215 {
+        obs.label("4-octet-length");
+    }
+    if c2 > he {
+        obs.nontrivial((c.size, c1 - hs, c2 - he, c.lead.len(), c.trail.len()));
+    }
     Ok(())
 }
 
@@ -344,11 +398,12 @@ pub fn property() -> Property {
     Property {
         id: "C06",
         level: "exploration",
-        rule: "lanes: decoder (1-6 well-formed response messages of all kinds, 7 B .. 200 KiB, generated BER length forms, concatenated; partitions: whole, 1-byte, generated cut points biased into tag/length headers, and - for streams <= 600 bytes - EVERY 2-chunk split and EVERY prefix) fed to the frame decoder exactly as Framed does (append, decode until 'need more'); oracle: delivered (id, op, controls) sequence equals the model, a message never surfaces before its last byte, after each delivery exactly the following bytes remain; e2e (one streaming search with 1-7 entries of 0..70 000 bytes through the scripted transport with generated read sizes, forced yields and batching). Non-trivial: a split inside a tag/length header, or a chunk holding >=2 messages plus a partial one (decoder); reads smaller than 10 bytes (e2e). Distinct = hash of stream prefix, length and partition.",
+        rule: "lanes: decoder (1-6 well-formed response messages of all kinds, 7 B .. 200 KiB, generated BER length forms, concatenated; partitions: whole, 1-byte, generated cut points biased into tag/length headers, and - for streams <= 600 bytes - EVERY 2-chunk split and EVERY prefix) fed to the frame decoder exactly as Framed does; huge (a 1-16 MiB entry between 0-2 leading and 1-3 trailing messages, the read that brings its last byte also bringing 0..all bytes of the followers) (append, decode until 'need more'); oracle: delivered (id, op, controls) sequence equals the model, a message never surfaces before its last byte, after each delivery exactly the following bytes remain; e2e (one streaming search with 1-7 entries of 0..70 000 bytes through the scripted transport with generated read sizes, forced yields and batching). Non-trivial: a split inside a tag/length header, or a chunk holding >=2 messages plus a partial one (decoder); reads smaller than 10 bytes (e2e). Distinct = hash of stream prefix, length and partition.",
         assumptions: &["Framed's contract (append then decode until None) is emulated by the harness; the e2e lane uses the real Framed inside the driver"],
         lanes: vec![
             Box::new(PLane { name: "decoder", cases: |t| t.pick(500, 10_000), strat, check }),
             Box::new(PLane { name: "e2e", cases: |t| t.pick(300, 5_000), strat: e2e_strat, check: check_e2e }),
+            Box::new(PLane { name: "huge", cases: |t| t.pick(12, 300), strat: huge_strat, check: check_huge }),
             Box::new(crate::runner::FnLane { name: "fuzz", run: fuzz_run, replay: fuzz_replay }),
         ],
         workers: (8, 16),
